@@ -467,7 +467,7 @@ def gen_history(rng, length, solver="glpk", ctx_p=0.12, max_depth=3, fail_p=0.15
         return [k for k, r in im.rx.items() if r._model is M]
 
     def mets_in():
-        return [int(m.id[1:]) for m in M.metabolites]
+        return [int(m.id[1:]) for m in M.metabolites if m.id[1:].isdigit()]
 
     def usable_mets():
         return [m for m in range(nm) if m not in removed_m]
